@@ -47,7 +47,9 @@ STYLES = ("eager", "lazy", "selfref")
 def units(tier):
     out = [(d, fmt) for d in _schemas(tier) for fmt in formats.FORMATS]
     # classes with different Config.orjson_options defined one after the other (each eager / lazy / self-referencing)
-    out += [("orjson_options", oa, sa, ob, sb) for oa in OPTS for ob in OPTS for sa in STYLES for sb in STYLES]
+    # (last element: whether the FIRST to_jsonb call on each class already carries an explicit orjson_options= argument)
+    out += [("orjson_options", oa, sa, ob, sb, first) for oa in OPTS for ob in OPTS for sa in STYLES for sb in STYLES
+            for first in ("plain-first", "option-first")]
     # a field annotated with a base class holding an instance of a subclass (class-level discriminator, so the tag restores the class)
     out += [("subclass", fmt, shape, first) for fmt in formats.FORMATS for shape in ("direct", "list", "opt", "dict")
             for first in ("to_dict", "format")]
@@ -193,7 +195,8 @@ def _run_options(unit):
     """Each class's to_jsonb must equal orjson.dumps(<its to_dict under the orjson dialect>, option=<ITS OWN Config.orjson_options>),
     whatever other orjson classes were defined before it; an explicit orjson_options= argument overrides."""
     import orjson
-    _, oa, sa, ob, sb = unit
+    _, oa, sa, ob, sb = unit[:5]
+    first = unit[5] if len(unit) > 5 else "plain-first"
     res = core.UnitResult()
 
     def V(clause, oc, who, detail):
@@ -221,7 +224,7 @@ def _run_options(unit):
         for name, opt in reversed(built):      # the class defined LAST is looked at first
             cls = ctx.ns[name]
             for table in ({}, {1: "x"}):
-                for call_opt in (None, "OPT_SORT_KEYS"):
+                for call_opt in ((None, "OPT_SORT_KEYS") if first == "plain-first" else ("OPT_SORT_KEYS", None)):
                     v = cls(when=dt.datetime(2020, 1, 2, 3, 4, 5, 678901), table=dict(table))
                     option = getattr(orjson, opt) if opt != "none" else None
                     kw = {}
